@@ -198,6 +198,7 @@ pub struct RuntimeScope<'a, W, R, T> {
     pub(crate) cells: Vec<TemplatedEvaluationCell<W, R, T>>,
     height: StackDepth,
     scope_parent: Option<&'a Self>,
+    stack_parent: Option<&'a Self>,
     template: Rc<RuntimeScopeTemplate<W, R, T>>,
 }
 
@@ -219,6 +220,15 @@ impl<'a, W: 'static, R: 'static, T: 'static> RuntimeScope<'a, W, R, T> {
                     }
                 }
             }
+            .or_else(|| {
+                // a caller that outlived its own scope parents no longer leads to the root scope,
+                // but the root scope is always at the bottom of the stack
+                let mut bottom = stack_parent?;
+                while let Some(p) = bottom.stack_parent {
+                    bottom = p;
+                }
+                (bottom.template.id == parent_id).then_some(bottom)
+            })
         } else {
             None
         };
@@ -237,6 +247,7 @@ impl<'a, W: 'static, R: 'static, T: 'static> RuntimeScope<'a, W, R, T> {
                 .collect(),
             height: stack_parent.map_or(StackDepth(0), |p| p.height + StackDepth(1)),
             scope_parent,
+            stack_parent,
             template: template.clone(),
         };
         if rt
